@@ -4,7 +4,7 @@
 (* one pure operator per method body.  Used by UncompressedFileSeq,        *)
 (* StreamConc, ReadSession and WriteSession.                               *)
 (*                                                                         *)
-(*   uf == [abort, data, g, p, gc, end, buf, C, rd]                        *)
+(*   uf == [abort, data, g, p, gc, end, buf, C, rd, dem]                   *)
 (*     abort : m_abort                                                     *)
 (*     data  : m_data, sequence of [pos, size] (filePosition,              *)
 (*             uncompressedFileSize of each LogContainer)                  *)
@@ -14,6 +14,7 @@
 (*     buf   : m_bufferSize  (Inf likewise)                                *)
 (*     C     : m_defaultLogContainerSize                                   *)
 (*     rd    : m_rdstate, "good" or "eof" (eofbit|failbit)                 *)
+(*     dem   : m_demand, position a blocked read needs data up to (0: none)*)
 (* Byte contents are not part of the record: bytes live at absolute stream *)
 (* positions, and the geometric invariants below (no overlap, coverage)    *)
 (* are what makes position -> cell well defined.                           *)
@@ -22,7 +23,7 @@ EXTENDS Integers, Sequences
 
 UInf == 1000000000
 UFInit == [abort |-> FALSE, data |-> <<>>, g |-> 0, p |-> 0, gc |-> 0,
-           end |-> UInf, buf |-> UInf, C |-> 131072, rd |-> "good"]
+           end |-> UInf, buf |-> UInf, C |-> 131072, rd |-> "good", dem |-> 0]
 
 MinI(a, b) == IF a < b THEN a ELSE b
 
@@ -49,14 +50,18 @@ UFRead(uf, n) ==
   LET beyond == n + uf.g > uf.end
       n1 == IF beyond THEN uf.end - uf.g ELSE n
       r == ReadLoop(uf.data, uf.g, n1, 0)
-  IN [uf EXCEPT !.rd = IF beyond THEN "eof" ELSE "good", !.g = r.g, !.gc = r.gc]
+  IN [uf EXCEPT !.rd = IF beyond THEN "eof" ELSE "good", !.g = r.g, !.gc = r.gc, !.dem = 0]
   \* notifies tellgChanged
+
+(* a read whose predicate is false publishes the position it needs before it waits
+   (and notifies tellgChanged so that a writer waiting for free space re-evaluates) *)
+UFDemand(uf, n) == [uf EXCEPT !.dem = n + uf.g]
 
 (* ---- seekg(off, cur): clamps at the declared end only; notifies tellgChanged ---- *)
 UFSeekg(uf, off) == [uf EXCEPT !.g = MinI(uf.g + off, uf.end)]
 
 (* ---- write(s, n): back-pressure evaluated once per call (signed difference) ---- *)
-UFWritePred(uf) == uf.abort \/ (uf.p - uf.g) < uf.buf
+UFWritePred(uf) == uf.abort \/ (uf.p - uf.g) < uf.buf \/ uf.p < uf.dem
 
 RECURSIVE WriteLoop(_, _, _, _)
 WriteLoop(data, p, n, C) ==
@@ -74,9 +79,8 @@ UFWrite(uf, n) ==
   [uf EXCEPT !.data = r.data, !.p = r.p, !.end = IF r.p >= @ THEN r.p ELSE @]
   \* notifies tellpChanged
 
-(* ---- write(logContainer): predicate casts the difference to uint32_t ---- *)
-U32Diff(p, g) == IF p >= g THEN p - g ELSE UInf - 1      \* wrapped: huge, but below "unlimited"
-UFWriteCPred(uf) == uf.abort \/ U32Diff(uf.p, uf.g) < uf.buf
+(* ---- write(logContainer): same back-pressure predicate (signed difference since the fix of F7) ---- *)
+UFWriteCPred(uf) == uf.abort \/ (uf.p - uf.g) < uf.buf \/ uf.p < uf.dem
 UFWriteC(uf, m) ==
   [uf EXCEPT !.data = Append(@, [pos |-> uf.p, size |-> m]), !.p = @ + m]
   \* notifies tellpChanged; the declared end is NOT shifted here
@@ -88,12 +92,14 @@ UFNextLogContainer(uf) ==
     THEN [uf EXCEPT !.data[i].size = uf.p - uf.data[i].pos]
     ELSE uf
 
-(* ---- dropOldData: at most the front container, triple guard ---- *)
-UFDrop(uf) ==
-  IF uf.data = <<>> THEN uf
-  ELSE LET e == uf.data[1].pos + uf.data[1].size IN
-       IF e > uf.g \/ e > uf.p \/ e > uf.end THEN uf
-       ELSE [uf EXCEPT !.data = Tail(@)]
+(* ---- dropOldData: every front container that is consumed completely (triple guard) ---- *)
+RECURSIVE DropLoop(_, _, _, _)
+DropLoop(data, g, p, end) ==
+  IF data = <<>> THEN data
+  ELSE LET e == data[1].pos + data[1].size IN
+       IF e > g \/ e > p \/ e > end THEN data
+       ELSE DropLoop(Tail(data), g, p, end)
+UFDrop(uf) == [uf EXCEPT !.data = DropLoop(uf.data, uf.g, uf.p, uf.end)]
 
 UFSetEnd(uf, n) == [uf EXCEPT !.end = n]        \* notifies tellpChanged
 UFSetBuf(uf, b) == [uf EXCEPT !.buf = b]
